@@ -155,8 +155,9 @@ func (l *langstring) Exit(key string, ctx *ParsingContext) (bool, error) {
 	return true, fmt.Errorf("rdf langstring cannot be exited")
 }
 
-// Apply sets the langstring value in the context as a referenced spec.
-func (l *langstring) Apply(key string, value interface{}, ctx *ParsingContext) (bool, error) {
+// markNaturalLanguageMaps marks the properties of the vocabulary being parsed
+// whose range includes the langstring value as having a natural language map.
+func (l *langstring) markNaturalLanguageMaps(ctx *ParsingContext) {
 	for k, p := range ctx.Result.Vocab.Properties {
 		for i, ref := range p.Range {
 			if ref.Name == langstringSpec && ref.Vocab == l.alias {
@@ -167,6 +168,18 @@ func (l *langstring) Apply(key string, value interface{}, ctx *ParsingContext) (
 			}
 		}
 	}
+}
+
+// ApplyToVocabulary marks the natural language map properties of a vocabulary
+// that references the langstring value after an earlier vocabulary has already
+// added the value to the referenced spec.
+func (l *langstring) ApplyToVocabulary(ctx *ParsingContext) {
+	l.markNaturalLanguageMaps(ctx)
+}
+
+// Apply sets the langstring value in the context as a referenced spec.
+func (l *langstring) Apply(key string, value interface{}, ctx *ParsingContext) (bool, error) {
+	l.markNaturalLanguageMaps(ctx)
 	u, e := url.Parse(rdfSpec + langstringSpec)
 	if e != nil {
 		return true, e
